@@ -220,15 +220,18 @@ Definition authorize (a : auth) (u : N) (r : request) : bool * list event :=
 (* reply bytes (nil = silence), unit states afterwards, application calls *)
 Definition ref_handle_frame (l : link) (a : auth) (units : list (N * St)) (fr : frame)
   : list N * list (N * St) * list event :=
-  let bc := dest_is_broadcast (f_dest fr) in
-  let answer pdu := if bc then [] else adu l (f_tx fr) (dest_value (f_dest fr)) pdu in
+  (* only a frame addressed to a configured unit id is ever answered (C17), with one exception:
+     the authorization veto comes before the unit lookup (C08, the carve-out C01 mentions) *)
+  let served := match f_dest fr with DUnit u => match lookup u units with Some _ => true | None => false end | DBroadcast => false end in
+  let answer pdu := if served then adu l (f_tx fr) (dest_value (f_dest fr)) pdu else [] in
   match decode (f_pdu fr) with
   | Empty => ([], units, [])
   | Unsupported fc => (answer (exception_pdu fc 1), units, [])
   | Invalid fc => (answer (exception_pdu fc 3), units, [])
   | Valid fc r =>
       let '(ok, alog) := authorize a (dest_value (f_dest fr)) r in
-      if negb ok then (answer (exception_pdu fc 1), units, alog)
+      if negb ok then
+        ((if dest_is_broadcast (f_dest fr) then [] else adu l (f_tx fr) (dest_value (f_dest fr)) (exception_pdu fc 1)), units, alog)
       else match f_dest fr with
            | DUnit u =>
                match lookup u units with
